@@ -199,7 +199,7 @@ func AddrIndex(a *net.UDPAddr) int {
 	if same(ServerAddr) {
 		return 1000
 	}
-	for i := 0; i < 500; i++ {
+	for i := 0; i < 700; i++ {
 		if same(Addr(i)) {
 			return i
 		}
